@@ -1052,7 +1052,28 @@ class Origin:
         body = self.body
         if body.kind == 'closure' and l == 1:
             return ('env', body.name)
-        return ('param', body.name, l - 1, body.local_name(l))
+        t = ('param', body.name, l - 1, body.local_name(l))
+        # a `&mut` parameter of a private function that receives, at EVERY call site, a borrow of one and the same field (`fn f(best_lb: &mut
+        # isize, ..)` called as `f(&mut self.best_lb, ..)`: a method turned into an associated function with partial borrows) IS that field
+        if l >= 1 and body.kind != 'closure' and body.raw.get('vis') != 'pub' and not body.impl_trait and (body.local_ty(l) or '').startswith('&mut ') \
+                and (body.local_name(l) or '') != 'self':
+            memo = self.facts.__dict__.setdefault('_field_params', {})
+            key = (body.name, l)
+            if key not in memo:
+                memo[key] = None
+                seen = []
+                for cb in self.facts.bodies.values():
+                    if cb.kind == 'closure' and cb.name.startswith(body.name):
+                        continue
+                    for (bb, ct) in cb.calls():
+                        if (ct.get('callee') == body.name or ct.get('resolved') == body.name) and l - 1 < len(ct['args']):
+                            seen.append(cb.origin.operand(ct['args'][l - 1], cb.term_point(bb)))
+                if seen and all(x == seen[0] for x in seen) and is_field(seen[0], seen[0][2] if isinstance(seen[0], tuple) and len(seen[0]) > 2 else None) \
+                        and is_param(field_base(seen[0])):
+                    memo[key] = seen[0]
+            if memo[key] is not None:
+                return memo[key]
+        return t
 
     def _def_term(self, l, d, depth):
         (b, i, kind, payload) = d
